@@ -52,6 +52,8 @@ struct ChildResult {
     outcomes: u64,
     sample_outcomes: Value,
     stderr_tail: String,
+    /// first panic message (the assertion text / loom's deadlock report): identifies *what* failed
+    first_msg: String,
     wall: f64,
 }
 
@@ -110,6 +112,7 @@ fn spawn_child(name: &str, bound: Option<usize>, timeout: Duration, checkpoint: 
         outcomes: 0,
         sample_outcomes: json!([]),
         stderr_tail: String::new(),
+        first_msg: String::new(),
         wall: t0.elapsed().as_secs_f64(),
     };
     if let Some(line) = stdout.lines().find(|l| l.starts_with("LOOMX-RESULT ")) {
@@ -142,6 +145,12 @@ fn spawn_child(name: &str, bound: Option<usize>, timeout: Duration, checkpoint: 
         let keep = tail.len().saturating_sub(6);
         picked = tail[keep..].iter().map(|s| s.to_string()).collect();
     }
+    r.first_msg = lines
+        .iter()
+        .position(|l| l.contains("panicked at"))
+        .and_then(|i| lines.get(i + 1))
+        .map(|l| l.trim().to_string())
+        .unwrap_or_default();
     r.stderr_tail = picked.join(" | ");
     if r.stderr_tail.len() > 1500 {
         let cut = r.stderr_tail.len() - 1500;
@@ -197,7 +206,7 @@ pub fn main_with(property: &'static str, rule: &'static str, configs: &'static [
             }
             if !r.ok {
                 ctx.violation(
-                    format!("{}@{}", c.name, bound_str(bound)),
+                    format!("{}@{}: {}", c.name, bound_str(bound), r.first_msg),
                     format!("loom reports a failing schedule in configuration {} ({}): {}", c.name, c.desc, r.stderr_tail),
                     json!({"config": c.name, "preemption_bound": bound}),
                 );
